@@ -1,5 +1,7 @@
 package lossless
 
+import "image"
+
 
 // Harness stubs for *glue* harnesses (engine "redirect"): the three phases of the real
 // Encode/EncodeToWriter (analyze, applyTransforms, encodeStream) are replaced; the argument
@@ -36,4 +38,17 @@ func vStubEncodeStream(enc *Encoder) ([]byte, error) {
 		bs = append(bs, 0x55)
 	}
 	return bs, nil
+}
+
+// vStubDecodeVP8L accepts any stream with a valid 5-byte VP8L header and returns a zero image of
+// the declared size (C16/C17 glue harnesses).
+func vStubDecodeVP8L(data []byte) (*image.NRGBA, error) {
+	if len(data) < 5 || data[0] != 0x2f {
+		return nil, ErrImageTooLarge
+	}
+	bits := uint32(data[1]) | uint32(data[2])<<8 | uint32(data[3])<<16 | uint32(data[4])<<24
+	if bits>>29 != 0 {
+		return nil, ErrImageTooLarge
+	}
+	return image.NewNRGBA(image.Rect(0, 0, int(bits&0x3fff)+1, int((bits>>14)&0x3fff)+1)), nil
 }
